@@ -216,6 +216,12 @@ func makeRole(ps *proofSys, fn *ssa.Function, prover bool) func(v ssa.Value) str
 				return "field:" + f
 			}
 		}
+		// a result of a private helper (g, q := generatorAndOrder(ec)): what the helper hands back
+		if ex, isEx := cv.(*ssa.Extract); isEx {
+			if r := core.ResolveIn(fn, ex); r != ssa.Value(ex) {
+				return role(r)
+			}
+		}
 		switch x := cv.(type) {
 		case *ssa.Const:
 			if x.Value == nil {
